@@ -130,10 +130,14 @@ struct Sub {
     /// message positions the values handed out at a late conversion may correspond to (resolved by the first
     /// item or the first Pending)
     cands: Vec<usize>,
+    /// lagging, not repaired by a Reset: position unknown until the next Pending (then replica == contents)
+    free_run: bool,
 }
 
 struct Mon {
     capacity: usize,
+    /// false when the vector was built by a constructor that promises no particular capacity
+    capacity_promised: bool,
     /// None while the vector has no receivers at all (after DropAll / DropSubs)
     ref_stream: Option<Pin<Box<VectorSubscriberBatchedStream<Tracked>>>>,
     ref_ended: bool,
@@ -150,6 +154,26 @@ struct Mon {
     deferred_c06: std::rc::Rc<std::cell::RefCell<Option<String>>>,
 }
 
+/// states (values only) at message boundaries from a subscriber's position on: the replica as it is (a boundary
+/// only if no message is half delivered), then after each further published message
+fn boundary_states(replica: &[Item], msgs: &[Vec<D>], pos_msg: usize, pos_diff: usize) -> Vec<Vec<u32>> {
+    let mut out = vec![];
+    let mut r = replica.to_vec();
+    if pos_diff == 0 {
+        out.push(vals(&r));
+    }
+    for (k, m) in msgs.iter().enumerate().skip(pos_msg) {
+        let from = if k == pos_msg { pos_diff } else { 0 };
+        for d in m.iter().skip(from) {
+            if d.checked_apply(&mut r).is_err() {
+                return out;
+            }
+        }
+        out.push(vals(&r));
+    }
+    out
+}
+
 fn to_ds(v: &[VectorDiff<Tracked>]) -> Vec<D> {
     v.iter().map(D::of).collect()
 }
@@ -163,7 +187,19 @@ impl Mon {
         let Some(rs) = self.ref_stream.as_mut() else { return };
         let (_f, w) = flag_waker();
         let mut cx = Context::from_waker(&w);
-        match rs.as_mut().poll_next(&mut cx) {
+        let polled = std::panic::catch_unwind(std::panic::AssertUnwindSafe(|| rs.as_mut().poll_next(&mut cx)));
+        let polled = match polled {
+            Ok(p) => p,
+            Err(_) => {
+                if self.fault.is_none() {
+                    self.fault = Some(Div { prop: "C05|C06|C07|C08", what: format!("poll_next of the reference subscriber panicked: {}", last_panic()) });
+                }
+                self.ref_stream = None;
+                self.ref_ended = true;
+                return;
+            }
+        };
+        match polled {
             Poll::Ready(Some(batch)) => {
                 let ds = to_ds(&batch);
                 if ds.is_empty() && self.fault.is_none() {
@@ -244,7 +280,9 @@ impl Mon {
     }
 
     fn poll_sub(&mut self, i: usize, max: usize, contents_now: &[Item]) -> Result<(), Div> {
-        let cap = self.capacity;
+        // `new()`, `default()` and `From<Vector>` promise no particular capacity (16 today): for vectors built that
+        // way only a Reset with at most one pending update is certainly premature
+        let cap = if self.capacity_promised { self.capacity } else { 1 };
         let alive = self.final_contents.is_none();
         let budget = if max == 0 { 10_000 } else { max };
         for _ in 0..budget {
@@ -315,10 +353,19 @@ impl Mon {
             if undelivered + 1 >= cap && undelivered > 0 {
                 self.facts.near_lag_polls += 1;
             }
-            let res: Poll<Option<Vec<D>>> = match stream {
+            // a panic inside a stream's poll belongs to the delivery properties, not to whatever else the
+            // history happens to be checking
+            let polled = std::panic::catch_unwind(std::panic::AssertUnwindSafe(|| match stream {
                 SubStream::U(st) => st.as_mut().poll_next(&mut cx).map(|o| o.map(|d| vec![D::of(&d)])),
                 SubStream::B(st) => st.as_mut().poll_next(&mut cx).map(|o| o.map(|b| to_ds(&b))),
                 SubStream::Raw(..) => unreachable!("converted above"),
+            }));
+            let res: Poll<Option<Vec<D>>> = match polled {
+                Ok(r) => r,
+                Err(_) => {
+                    s.stream = None;
+                    return div("C05|C06|C07|C08", format!("poll_next of subscriber s{i} panicked: {}", last_panic()));
+                }
             };
             // a late conversion with several possible positions: the first answer tells which one it was
             if s.cands.len() > 1 {
@@ -361,9 +408,18 @@ impl Mon {
                     if !alive {
                         return div("C08", format!("subscriber s{i} is Pending although the vector was dropped"));
                     }
+                    if s.free_run {
+                        // judged by the replica comparison below only
+                        s.free_run = false;
+                        s.lagged = true;
+                        s.pos_msg = n_msgs;
+                        s.pos_diff = 0;
+                    }
                     if s.pos_msg < n_msgs {
+                        // (for a subscriber behind beyond the capacity this is C06's Pending clause, not C05's)
+                        let tag = if n_msgs - s.pos_msg > cap { "C06" } else { "C05" };
                         return div(
-                            "C05",
+                            tag,
                             format!("subscriber s{i} is Pending although {} message(s) are undelivered", n_msgs - s.pos_msg),
                         );
                     }
@@ -450,7 +506,10 @@ impl Mon {
                         if vals(values) != vals(contents_now) {
                             // the Reset is built from the newest message: if that is a commit, the
                             // transaction did not reach this subscriber as one unit either
-                            let tag = if n_msgs > 0 && self.commit_msgs.contains(&(n_msgs - 1)) { "C06|C07" } else { "C06" };
+                            // C07 as well only if the Reset shows a state *inside* a transaction, i.e. one that is no
+                            // message-boundary state at all
+                            let bounds = boundary_states(&s.replica, &self.msgs, s.pos_msg, s.pos_diff);
+                            let tag = if !self.commit_msgs.is_empty() && !bounds.contains(&vals(values)) { "C06|C07" } else { "C06" };
                             return div(
                                 tag,
                                 format!("Reset delivered to s{i} carries {:?} but the contents are {:?}", vals(values), vals(contents_now)),
@@ -466,14 +525,29 @@ impl Mon {
                         // must be the concatenation of everything pending
                         let expect: Vec<D> = self.msgs[s.pos_msg..].iter().flatten().cloned().collect();
                         if ds.len() != expect.len() || ds.iter().zip(&expect).any(|(a, b)| !a.same_values(b)) {
-                            // a subscriber that is behind beyond the capacity must get a Reset (C06); a committed
-                            // transaction among the pending messages that does not arrive as published: C07 too
+                            // where does what was delivered lead?
+                            let mut r = s.replica.clone();
+                            let applicable = ds.iter().all(|d| d.checked_apply(&mut r).is_ok());
+                            if undelivered > cap {
+                                // a subscriber that is behind beyond the capacity: C06 does not prescribe which
+                                // diffs repair the lag, only that they apply and that the item brings it up to date
+                                if !applicable {
+                                    return div("C06", format!("batched s{i} (lagging) received {} which is inapplicable to its replica", show_diffs(&ds)));
+                                }
+                                if vals(&r) != vals(contents_now) {
+                                    return div("C06", format!("after a batched item the lagging s{i} has replica {:?} != contents {:?}", vals(&r), vals(contents_now)));
+                                }
+                                s.replica = r;
+                                s.lagged = true;
+                                s.pos_msg = n_msgs;
+                                s.pos_diff = 0;
+                                continue;
+                            }
+                            // C07 too only if a committed transaction is pending and what arrived is inapplicable or
+                            // ends in a state that is no message boundary (a state in between)
                             let has_commit = (s.pos_msg..n_msgs).any(|k| self.commit_msgs.contains(&k));
-                            let tag = match (undelivered > cap, has_commit) {
-                                (true, _) => "C05|C06",
-                                (false, true) => "C05|C07",
-                                (false, false) => "C05",
-                            };
+                            let bounds = boundary_states(&s.replica, &self.msgs, s.pos_msg, s.pos_diff);
+                            let tag = if has_commit && (!applicable || !bounds.contains(&vals(&r))) { "C05|C07" } else { "C05" };
                             return div(
                                 tag,
                                 format!("batched s{i} received {} but the pending messages are {}", show_diffs(&ds), show_diffs(&expect)),
@@ -498,10 +572,15 @@ impl Mon {
                         let expect = self.msgs.get(s.pos_msg).and_then(|m| m.get(s.pos_diff));
                         match expect {
                             Some(e) if d.same_values(e) => {}
+                            _ if s.free_run || undelivered > cap => {
+                                // behind beyond the capacity and not repaired by a Reset: C06 does not prescribe which
+                                // diffs arrive, only that each is applicable and that at Pending the replica equals
+                                // the contents - from here to the next Pending only that is judged
+                                s.free_run = true;
+                            }
                             other => {
-                                let tag = if undelivered > cap { "C05|C06" } else { "C05" };
                                 return div(
-                                    tag,
+                                    "C05",
                                     format!(
                                         "s{i} received {} but the next undelivered diff is {}",
                                         d.show(),
@@ -513,10 +592,12 @@ impl Mon {
                         if let Err(e) = d.checked_apply(&mut s.replica) {
                             return div("C06", format!("diff {} delivered to s{i} is inapplicable: {e}", d.show()));
                         }
-                        s.pos_diff += 1;
-                        if s.pos_diff == self.msgs[s.pos_msg].len() {
-                            s.pos_msg += 1;
-                            s.pos_diff = 0;
+                        if !s.free_run {
+                            s.pos_diff += 1;
+                            if s.pos_diff == self.msgs[s.pos_msg].len() {
+                                s.pos_msg += 1;
+                                s.pos_diff = 0;
+                            }
                         }
                     }
                 }
@@ -561,6 +642,7 @@ fn run_inner(h: &VecHistory, deferred: std::rc::Rc<std::cell::RefCell<Option<Str
     let ref_sub = ob.as_ref().unwrap().subscribe();
     let mut mon = Mon {
         capacity: h.capacity,
+        capacity_promised: h.capacity != 16,
         ref_stream: Some(Box::pin(ref_sub.into_batched_stream())),
         ref_ended: false,
         msgs: vec![],
@@ -608,6 +690,7 @@ fn run_inner(h: &VecHistory, deferred: std::rc::Rc<std::cell::RefCell<Option<Str
                     ended: false,
                     lagged: false,
                     cands: vec![],
+                    free_run: false,
                 });
             }
             HOp::SubLazy { batched, values } => {
@@ -631,6 +714,7 @@ fn run_inner(h: &VecHistory, deferred: std::rc::Rc<std::cell::RefCell<Option<Str
                     ended: false,
                     lagged: false,
                     cands: vec![],
+                    free_run: false,
                 });
             }
             HOp::Poll { sub, max } => {
@@ -691,7 +775,7 @@ fn drop_vec(ob: &mut Option<ObservableVector<Tracked>>, mon: &mut Mon, into_inne
             let inner = o.into_inner();
             let got = items_of(inner.iter());
             if vals(&got) != vals(mon.final_contents.as_ref().unwrap()) {
-                return div("C17", format!("into_inner() returned {:?}, the contents were {:?}", vals(&got), vals(mon.final_contents.as_ref().unwrap())));
+                return div("X-into-inner", format!("into_inner() returned {:?}, the contents were {:?}", vals(&got), vals(mon.final_contents.as_ref().unwrap())));
             }
             drop(inner);
         } else {
@@ -737,7 +821,7 @@ fn step_vop_inner(ob: &mut ObservableVector<Tracked>, vop: &VOp, mon: &mut Mon, 
             let mut certain = 0usize; // recorded changes that any implementation has to publish
             let mut any_clear = false;
             // an out-of-range call inside the body panicked (it must leave no trace in what is published: C17)
-            let had_panic = std::cell::Cell::new(false);
+            let panicked: std::cell::RefCell<Vec<(char, usize)>> = std::cell::RefCell::new(vec![]);
             let mut tx = ob.transaction();
             let mut phase = |tx: &mut eyeball_im::ObservableVectorTransaction<'_, Tracked>,
                              ops: &[VOp],
@@ -765,7 +849,12 @@ fn step_vop_inner(ob: &mut ObservableVector<Tracked>, vop: &VOp, mon: &mut Mon, 
                     } else if expect != Ret::Panic {
                         *certain += direct_messages(&wb, op);
                     } else {
-                        had_panic.set(true);
+                        match op {
+                            VOp::Insert(i, _) => panicked.borrow_mut().push(('I', *i)),
+                            VOp::Set(i, _) | VOp::EntrySet(i, _) | VOp::EntrySetTwice(i, _, _) => panicked.borrow_mut().push(('S', *i)),
+                            VOp::Remove(i) | VOp::EntryRemove(i) => panicked.borrow_mut().push(('R', *i)),
+                            _ => {}
+                        }
                     }
                     let (ret, ids) = exec_on_txn(tx, op, &mut || {});
                     check_ret(op, &expect, &ret, &ids, None, mon, "transaction ")?;
@@ -801,10 +890,11 @@ fn step_vop_inner(ob: &mut ObservableVector<Tracked>, vop: &VOp, mon: &mut Mon, 
                     tx.rollback();
                     work = before_v.clone();
                     certain = 0;
+                    panicked.borrow_mut().clear();
                     any_clear = false;
                     let seen = vals(&contents(&tx));
                     if seen != work {
-                        return div("C07|C17", format!("after rollback the transaction shows {seen:?}, expected {work:?}"));
+                        return div("C07", format!("after rollback the transaction shows {seen:?}, expected {work:?}"));
                     }
                     phase(&mut tx, more, &mut work, &mut certain, &mut any_clear, mon)?;
                     *c
@@ -854,19 +944,27 @@ fn step_vop_inner(ob: &mut ObservableVector<Tracked>, vop: &VOp, mon: &mut Mon, 
                     // subscriber, so the number of recorded operations is not held against it)
                     let _ = certain;
                 } else {
+                    // C17 ("... panics without ... notifying anyone") only if the batch really carries the diff of
+                    // a call that panicked
+                    let trace_of_panic = new[0].iter().any(|d| match d {
+                        D::Insert(i, _) => panicked.borrow().contains(&('I', *i)),
+                        D::Set(i, _) => panicked.borrow().contains(&('S', *i)),
+                        D::Remove(i) => panicked.borrow().contains(&('R', *i)),
+                        _ => false,
+                    });
                     if certain == 0 && !any_clear {
-                        let tag = if had_panic.get() { "C07|C17" } else { "C07" };
+                        let tag = if trace_of_panic { "C07|C17" } else { "C07" };
                         return div(tag, format!("commit without recorded changes published {}", show_diffs(&new[0])));
                     }
                     let mut r = before.clone();
                     for d in &new[0] {
                         if let Err(e) = d.checked_apply(&mut r) {
-                            let tag = if had_panic.get() { "C05|C07|C17" } else { "C05|C07" };
+                            let tag = if trace_of_panic { "C05|C07|C17" } else { "C05|C07" };
                             return div(tag, format!("committed diff {} is inapplicable to the pre-transaction state: {e}", d.show()));
                         }
                     }
                     if vals(&r) != after {
-                        let tag = if had_panic.get() { "C05|C07|C17" } else { "C05|C07" };
+                        let tag = if trace_of_panic { "C05|C07|C17" } else { "C05|C07" };
                         return div(
                             tag,
                             format!("pre-state {before_v:?} + committed {} = {:?}, but the contents are {after:?}", show_diffs(&new[0]), vals(&r)),
@@ -910,10 +1008,12 @@ fn step_vop_inner(ob: &mut ObservableVector<Tracked>, vop: &VOp, mon: &mut Mon, 
             let mut m = before_v.clone();
             let expect = model_op(&mut m, vop);
             let want_msgs = if expect == Ret::Panic { 0 } else { direct_messages(&before_v, vop) };
+            let wakes_before: Vec<u64> = mon.subs.iter().map(|s| s.pending.as_ref().map_or(0, |(f, _)| f.wakes.load(std::sync::atomic::Ordering::SeqCst))).collect();
             let (ret, ids) = {
                 let mut after_call = || mon.poll_ref();
                 exec_on_vec(ob, vop, &mut after_call)
             };
+            let wakes_after: Vec<u64> = mon.subs.iter().map(|s| s.pending.as_ref().map_or(0, |(f, _)| f.wakes.load(std::sync::atomic::Ordering::SeqCst))).collect();
             mon.poll_ref();
             mon.take_fault()?;
             check_ret(vop, &expect, &ret, &ids, Some(&before), mon, "")?;
@@ -928,10 +1028,8 @@ fn step_vop_inner(ob: &mut ObservableVector<Tracked>, vop: &VOp, mon: &mut Mon, 
                     return div("C17", format!("{} panicked but published {}", vop.show(), show_diffs(&new[0])));
                 }
                 for (i, s) in mon.subs.iter().enumerate() {
-                    if let Some((flag, at)) = &s.pending {
-                        if *at == n0 && flag.woken() {
-                            return div("C17", format!("subscriber s{i} was woken by the panicking call {}", vop.show()));
-                        }
+                    if s.pending.is_some() && wakes_after[i] > wakes_before[i] {
+                        return div("C17", format!("subscriber s{i} was woken by the panicking call {}", vop.show()));
                     }
                 }
             }
